@@ -130,7 +130,7 @@ def extract(repo=REPO, config="dev", extra_crate_dirs=()):
         lock.close()
 
 
-def _prune(keep, maxn=int(os.environ.get("VERIF_CACHE_MAX", "6"))):
+def _prune(keep, maxn=int(os.environ.get("VERIF_CACHE_MAX", "200"))):
     ds = [os.path.join(CACHE, d) for d in os.listdir(CACHE) if d.startswith("facts-")]
     ds = [d for d in ds if os.path.isdir(d) and d != keep]
     ds.sort(key=os.path.getmtime, reverse=True)
